@@ -88,7 +88,7 @@ def to_nodes(f):
     return [[l, None, None, to_nodes(k)] for l, k in f]
 
 
-LABELS = ["s:a", "s:b", "s:c", "s:d", "s:e", "s:f"]
+LABELS = ["s:a", "s:ab", "s:b", "s:ba", "s:c", "s:abc"]   # with prefix relations between the names
 
 
 # ---------------------------------------------------------------------------
@@ -248,6 +248,17 @@ class Prop:
             else:
                 t1 = rand_nodes(rng, rng.randint(0, nmax), k)
             yield dict(univ=LABELS[:k], t0=t0, t1=t1)
+        # typed trees (both inputs TypedTree; kinds play no role in the comparison and are copied to the result)
+        ntyped = 60 if tier == "quick" else 600
+        for i in range(ntyped):
+            k = rng.choice([3, 4])
+            t0 = rand_nodes(rng, rng.randint(1, 10), k)
+            t1 = mutate(rng, t0, k, rng.randint(0, 5))
+
+            def kinds(nodes):
+                return [[l, rng.choice(["k1", "k2"]), d, kinds(ch)] for l, _, d, ch in nodes]
+
+            yield dict(univ=LABELS[:k], t0=kinds(t0), t1=kinds(t1), typed=True)
         # out of the theorem's domain: equal-comparing objects under explicit ids
         nout = 80 if tier == "quick" else 600
         for i in range(nout):
@@ -281,11 +292,13 @@ class Prop:
     def build_pair(self, desc):
         U = B.make_universe(desc["univ"])
         base = H.alloc_count()
-        t0 = Tree("T0")
-        t1 = Tree("T1")
+        typed = bool(desc.get("typed"))
+        cls = H.TypedTree if typed else Tree
+        t0 = cls("T0")
+        t1 = cls("T1")
         try:
-            B.add_nodes(t0._root, desc["t0"], U, False)
-            B.add_nodes(t1._root, desc["t1"], U, False)
+            B.add_nodes(t0._root, desc["t0"], U, typed)
+            B.add_nodes(t1._root, desc["t1"], U, typed)
         except Exception:
             return None
         return U, t0, t1, base
@@ -294,7 +307,7 @@ class Prop:
         built = self.build_pair(desc)
         if built is None:
             # description violates sibling uniqueness (possible after shrinking / out-of-domain labelling): trivial case
-            return Case(desc=desc, coq_input="([], [], [])", impl_obs=[[], [], [], True], nontrivial=False, key=H.digest(desc))
+            return Case(desc=desc, coq_input="(([], [], []) : case11)", impl_obs=[[], [], [], True], nontrivial=False, key=H.digest(desc))
         U, t0, t1, base = built
         # node identities local to the case (allocation index minus the index at the start of the case): unary nat in Coq
         in0, in1 = coq_forest(t0._root, U, base), coq_forest(t1._root, U, base)
@@ -334,6 +347,7 @@ class Prop:
             obs_runs.append([enc_meta(rm), obs_forest(res._root, U), labels])
             if not outside:
                 f, st = oracle(t0, t1, res, ordered, reduce, snap)
+                f = f or check_kinds(res, t0, t1)
                 marks += st["marks"]
                 ambiguous = ambiguous or st["ambiguous"]
                 if f:
@@ -341,7 +355,7 @@ class Prop:
         obs = [obs_runs, before[0], before[1], not outside]
         # the model is compared against the inputs as observed AFTER the calls
         obs[1], obs[2] = sx_in(t0._root, U, base), sx_in(t1._root, U, base)
-        coq_input = f"({in0}, {in1}, {H.coq_list(coq_cfgs)})"
+        coq_input = f"(({in0}, {in1}, {H.coq_list(coq_cfgs)}) : case11)"
         n0, n1 = B.nodes_size(desc["t0"]), B.nodes_size(desc["t1"])
         return Case(desc=desc, coq_input=coq_input, impl_obs=obs, oracle_fail="; ".join(fails[:3]) if fails else None,
                     nontrivial=marks > 0, key=H.digest([desc["univ"], desc["t0"], desc["t1"]]),
@@ -587,6 +601,49 @@ def shape(n):
     return [(c._data, shape(c)) for c in (n._children or [])]
 
 
+def check_kinds(res, t0, t1):
+    """typed trees: the result has t0's class and every result node has the kind of the node it was copied from"""
+    if type(res) is not type(t0):
+        return f"class: result is a {type(res).__name__}, t0 a {type(t0).__name__}"
+
+    def kind(n):
+        return getattr(n, "kind", None)
+
+    def by_eq(children, data):
+        return next((c for c in (children or []) if c._data == data), None)
+
+    def copied(c2, c1):
+        if kind(c2) != kind(c1):
+            return f"kind: copy of added node {c1._data!r} has kind {kind(c2)!r}, source {kind(c1)!r}"
+        for k2 in (c2._children or []):
+            k1 = by_eq(c1._children, k2._data)
+            if k1 is not None:
+                r = copied(k2, k1)
+                if r:
+                    return r
+        return None
+
+    def walk(p2, p0, p1):
+        for c2 in (p2._children or []):
+            dc = c2.get_meta("dc")
+            if dc in NEW:
+                c1 = by_eq(p1._children, c2._data)
+                r = copied(c2, c1) if c1 is not None else None
+            else:
+                c0 = by_eq(p0._children, c2._data)
+                if c0 is None:
+                    continue
+                if kind(c2) != kind(c0):
+                    return f"kind: copy of {c0._data!r} has kind {kind(c2)!r}, source {kind(c0)!r}"
+                c1 = by_eq(p1._children, c2._data)
+                r = walk(c2, c0, c1) if (c1 is not None and dc not in GONE) else None
+            if r:
+                return r
+        return None
+
+    return walk(res._root, t0._root, t1._root)
+
+
 def usort(l):
     return sorted(l, key=repr)
 
@@ -596,6 +653,8 @@ def ucanon(s):
 
 
 CORPUS = [
+    # D60: diff() of two typed trees raised TypeError (Node.add_child cannot construct a TypedNode copy)
+    dict(univ=LABELS[:3], typed=True, t0=[[0, "k1", None, [[1, "k2", None, []]]]], t1=[[0, "k1", None, []], [1, "k1", None, []]]),
     # ambiguous re-classification: removed 'a', added branch b(a(a))... with two copies of the removed node's data
     dict(univ=LABELS[:3], t0=[[0, None, None, []]], t1=[[1, None, None, [[0, None, None, [[2, None, None, [[0, None, None, []]]]]]]]]),
     dict(univ=LABELS[:3], t0=[[0, None, None, []], [1, None, None, []]], t1=[[1, None, None, []], [0, None, None, []]]),
